@@ -113,7 +113,7 @@ fn stakes_with_ties(n: usize, kind: u64, rng: &mut ChaCha20Rng) -> Vec<u64> {
     match kind % 4 {
         0 => vec![7; n],
         1 => (0..n).map(|i| 1 + (i as u64 % 3)).collect(),
-        2 => (0..n).map(|_| 1 + rnd::below(rng, 4)).collect(),
+        2 => (0..n).map(|i| if i > 0 && i % 3 == 0 { 0 } else { 1 + rnd::below(rng, 4) }).collect(),
         _ => (0..n).map(|_| 1 + rnd::below(rng, 1_000_000)).collect(),
     }
 }
@@ -414,10 +414,44 @@ pub fn run_common_level(mon: &mut Monitor) {
             let mut v = signers.clone();
             v.pop();
             mon.eval();
-            if let Ok(Ok(a)) = catch(|| signer_builder_avk(&v, &pp)) {
-                if a == base {
+            let without_last = catch(|| signer_builder_avk(&v, &pp));
+            if let Ok(Ok(a)) = &without_last {
+                if *a == base {
                     mon.violation("C06 distinct registration sets give the same aggregate key (party_removed)", "SignerBuilder level", json!({}));
                 }
+            }
+            // a registered party with stake 0 is still a member of the set: S with (key, 0) differs
+            // from S without that party (and from S with the party's real stake)
+            let mut v0 = signers.clone();
+            let last = v0.len() - 1;
+            v0[last].stake = 0;
+            mon.eval();
+            mon.count("neighbour:common_level_party_with_zero_stake");
+            match catch(|| signer_builder_avk(&v0, &pp)) {
+                Ok(Ok(a0)) => {
+                    if a0 == base {
+                        mon.violation("C06 distinct registration sets give the same aggregate key (stake_set_to_zero)", "SignerBuilder level", json!({}));
+                    }
+                    if let Ok(Ok(a)) = &without_last {
+                        if *a == a0 {
+                            mon.violation("C06 distinct registration sets give the same aggregate key (zero_stake_party_vs_party_absent)",
+                                "SignerBuilder gives the same key for S + (key, stake 0) and for S without that party", json!({"parties": n}));
+                        }
+                    }
+                    // and the same set through mithril-stm directly must agree with SignerBuilder
+                    let mut regs0 = regs.clone();
+                    if let Some(r) = regs0.iter_mut().find(|r| r.vk == v0[last].verification_key_for_concatenation.into_inner().vk.to_bytes()) {
+                        r.stake = 0;
+                    }
+                    if let Ok(Ok(o)) = catch(|| observe_stm(&regs0, &to_stm_params(&pp))) {
+                        if o.avk_bytes != avk_bytes(&a0) {
+                            mon.violation("C06 SignerBuilder and mithril-stm disagree on the aggregate key",
+                                "set containing a zero-stake party", json!({"stm": vcore::hex(&o.avk_bytes), "signer_builder": vcore::hex(&avk_bytes(&a0))}));
+                        }
+                    }
+                }
+                Ok(Err(_)) => mon.count("zero_stake_party_refused_by_signer_builder"),
+                Err(p) => mon.violation("C06 SignerBuilder panics", &p, json!({"case": "zero stake party"})),
             }
         }
     }
